@@ -151,7 +151,9 @@ def run(ctx):
         if not pc and not any(True for _ in []):
             total_val = val.args[1] if isinstance(val, ast.Call) and len(val.args) == 2 else None
             break
-    want = {'int(self.total)if%sisNoneelse%s' % (rows_p, rows_p), '%sif%sisnotNoneelseint(self.total)' % (rows_p, rows_p)}
+    want = set()
+    for whole in ('int(self.total)', 'int(np.floor(self.total))', 'int(math.floor(self.total))', 'math.floor(self.total)', 'int(self.total//1)'):
+        want |= {'%sif%sisNoneelse%s' % (whole, rows_p, rows_p), '%sif%sisnotNoneelse%s' % (rows_p, rows_p, whole)}
     ctx.ob('rows-default', fi, fi.node, total_val is not None and T(total_val) in want,
            'the number of records is int(self.total) unless a row count is given; the first column is asked for `%s` values'
            % (U(total_val) if total_val is not None else None), construct='number of rows')
